@@ -39,7 +39,7 @@ struct Settings {
   bool forked = false;       // running inside an isolated child
   bool solo_pass = false;    // executing the solo-replay pass: environmental faults are stripped
   bool sanitizer = false;
-  long op_cpu_seconds = 60;  // per-operation CPU watchdog (virtual time)
+  long op_cpu_seconds = 20;  // per-operation CPU watchdog (process CPU time; x3 under sanitizers)
   std::string own_prefix;   // e.g. "C05.": a check reports only clauses of its own property (others are noted)
   unsigned enabled_mask = 0x1FFE; // parameter sets the configuration under test is expected to enable (bit id)
 };
